@@ -990,8 +990,8 @@ def _capture_free(stmts, nm, expr_names):
     return ok
 
 
-def g1_inline(fn, vocab_ok=True):
-    """Forward substitution of single-definition pure temporaries."""
+def g1_inline(fn, vocab_ok=True, keep=None):
+    """Forward substitution of single-definition pure temporaries (keep: names that are never substituted)."""
     changed_any = False
     for _ in range(6):
         facts = Facts(fn)
@@ -1010,6 +1010,8 @@ def g1_inline(fn, vocab_ok=True):
                 if not (isinstance(s, ast.Assign) and len(s.targets) == 1 and isinstance(s.targets[0], ast.Name)):
                     continue
                 nm = s.targets[0].id
+                if keep is not None and nm in keep:
+                    continue
                 if facts.nstores(nm) != 1 or nm in facts.params or nm in facts.declared or nm in facts.nested_uses or nm in facts.mutated:
                     continue
                 e = s.value
@@ -1115,7 +1117,7 @@ def _count_loads(node, name):
     return sum(1 for n in _walk(node) if isinstance(n, ast.Name) and n.id == name and isinstance(n.ctx, ast.Load))
 
 
-def p5_inline_temps(fn):
+def p5_inline_temps(fn, keep=None):
     loads, stores = {}, {}
     for n in _walk(fn):
         if isinstance(n, ast.Name):
@@ -1129,6 +1131,9 @@ def p5_inline_temps(fn):
             if isinstance(s, ast.Assign) and len(s.targets) == 1 and isinstance(s.targets[0], ast.Name) \
                     and isinstance(s.value, (ast.Call, ast.ListComp, ast.DictComp, ast.GeneratorExp)):
                 nm = s.targets[0].id
+                if keep is not None and nm in keep:
+                    i += 1
+                    continue
                 if loads.get(nm, 0) == 1 and stores.get(nm, 0) == 1 and isinstance(nxt, (ast.Assign, ast.AugAssign, ast.Return, ast.Expr)) \
                         and _count_loads(nxt, nm) == 1 \
                         and not any(isinstance(n, COMPS + (ast.Lambda,)) and _mentions(n, nm) for n in ast.walk(nxt)) \
@@ -1187,12 +1192,40 @@ def p7_aug(block):
 
 
 # ------------------------------------------------------------------------------------------ driver
-def canon_function(fn_node, level=1, protocol=False):
+ALL_L2 = frozenset({'GN', 'PN', 'W', 'IV1', 'RG1', 'C1', 'E1', 'S1', 'R1', 'U1', 'G1', 'P5', 'L1', 'F1', 'M1', 'II', 'B1', 'P3', 'P3B'})
+# second-stage passes that are switched on (see DESIGN.md section 3: a pass is enabled only when every rule has been
+# confirmed to be quiet on the reference tree with it and the seeded corpus is still detected)
+ENABLED_L2 = frozenset({'GN', 'PN', 'W', 'IV1', 'C1', 'S1', 'U1', 'F1', 'M1', 'II', 'B1', 'P3B'})
+
+
+def enabled_passes():
+    import os
+    v = os.environ.get('MPV_PASSES')      # developer override, used by the pass bisection only
+    if v is None:
+        return ENABLED_L2
+    return frozenset(x for x in v.split(',') if x) & ALL_L2 if v != 'all' else ALL_L2
+
+
+def canon_function(fn_node, level=None, protocol=False, vocab=None):
     """Return a canonicalised deep copy of a FunctionDef / AsyncFunctionDef.
 
     protocol=True additionally applies the passes the small message-layer functions were written against
     (alias inlining of arbitrary attribute chains, early-return nesting)."""
     fn = copy.deepcopy(fn_node)
+    en = enabled_passes() if level is None else (ALL_L2 if level >= 2 else frozenset())
+    if vocab is not None:
+        # GN / PN: temporaries that the reference tree does not have in this function are substituted into their uses
+        # first, so that every later pass and every rule sees the function in the vocabulary it was written against
+        for _ in range(4):
+            ch = False
+            if 'GN' in en:
+                ch = g1_inline(fn, keep=vocab) or ch
+            if 'PN' in en:
+                before = ast.dump(fn)
+                fn = p5_inline_temps(fn, keep=vocab)
+                ch = ch or ast.dump(fn) != before
+            if not ch:
+                break
     _walk_blocks(fn, p6_unpack1)
     o = _Orient()
     fn.body = [o.visit(s) for s in fn.body]
@@ -1204,30 +1237,45 @@ def canon_function(fn_node, level=1, protocol=False):
         fn = p5_inline_temps(fn)
         _walk_blocks(fn, p4_early_return)
         _walk_blocks(fn, p3_polarity)
-    if level >= 2:
+    if en - {'GN', 'PN'}:
         for _ in range(4):
             before = ast.dump(fn)
-            w_loops(fn, Facts(fn))
-            iv1_induction(fn)
-            rg1_ranges(fn)
-            _walk_loop_bodies(fn, c1_continue)
-            _walk_blocks(fn, e1_lift)
-            s1_sink(fn)
-            _walk_blocks(fn, r1_return_sink)
-            if not protocol:
+            if 'W' in en:
+                w_loops(fn, Facts(fn))
+            if 'IV1' in en:
+                iv1_induction(fn)
+            if 'RG1' in en:
+                rg1_ranges(fn)
+            if 'C1' in en:
+                _walk_loop_bodies(fn, c1_continue)
+            if 'E1' in en:
+                _walk_blocks(fn, e1_lift)
+            if 'S1' in en:
+                s1_sink(fn)
+            if 'R1' in en:
+                _walk_blocks(fn, r1_return_sink)
+            if not protocol and 'U1' in en:
                 _walk_blocks(fn, u1_unnest)
-            g1_inline(fn)
-            fn = p5_inline_temps(fn)
-            _walk_blocks(fn, l1_loops)
-            f = _Fuse()
-            fn.body = [f.visit(s) for s in fn.body]
+            if 'G1' in en:
+                g1_inline(fn)
+            if 'P5' in en:
+                fn = p5_inline_temps(fn)
+            if 'L1' in en:
+                _walk_blocks(fn, l1_loops)
+            if 'F1' in en:
+                f = _Fuse()
+                fn.body = [f.visit(s) for s in fn.body]
             fn.body = [t.visit(s) for s in fn.body]
-            _walk_blocks(fn, m1_merge_ifs)
-            ii = _IsInst()
-            fn.body = [ii.visit(s) for s in fn.body]
-            _walk_blocks(fn, b1_bool_returns)
-            _walk_blocks(fn, p3_polarity)
-            if not protocol:
+            if 'M1' in en:
+                _walk_blocks(fn, m1_merge_ifs)
+            if 'II' in en:
+                ii = _IsInst()
+                fn.body = [ii.visit(s) for s in fn.body]
+            if 'B1' in en:
+                _walk_blocks(fn, b1_bool_returns)
+            if 'P3' in en:
+                _walk_blocks(fn, p3_polarity)
+            if not protocol and 'P3B' in en:
                 _walk_blocks(fn, p3b_guard_polarity)
             if ast.dump(fn) == before:
                 break
